@@ -170,7 +170,17 @@ pub fn record_cont(output: &str) {
             }
         }
         let asked = if sentinel { rs_opw_kinematics::kinematic_traits::CONSTRAINT_CENTERED } else { prev };
-        let ans = solver::call(kin.as_ref(), "inverse_continuing", &want.to_na(), &asked, 0.0);
+        // one call in four goes through the convenience entry of a frame with the identity transform: the taught point
+        // is the same posture with another J4 / J6 split (the same pose), the previous joints are passed separately
+        let via_frame = k % 4 == 2;
+        let ans = if via_frame {
+            let d = r.gen_range(0.1..0.5) * if r.gen_bool(0.5) { 1.0 } else { -1.0 };
+            let mut taught = q;
+            taught[3] += d * s(3);
+            taught[5] -= d * s(5);
+            let framed = rs_opw_kinematics::frame::Frame { robot: kin.clone(), frame: nalgebra::Isometry3::identity() };
+            guarded(|| framed.forward_transformed(&taught, &asked).0)
+        } else { solver::call(kin.as_ref(), "inverse_continuing", &want.to_na(), &asked, 0.0) };
         if std::env::var("VERIF_DEBUG_EV").ok().and_then(|x| x.parse::<usize>().ok()) == Some(out.n + 1) {
             let bare = rs_opw_kinematics::kinematics_impl::OPWKinematics::new(p);
             let mut leaf_na = want.to_na();
@@ -191,7 +201,7 @@ pub fn record_cont(output: &str) {
         }
         let base = json!({"ev": "cont", "kind": "zero", "realised": realised, "prev": au6(&prev), "sens_nrad": nano(sens), "other_singular": other_singular,
             "s46_equal": p.sign_corrections[3] == p.sign_corrections[5], "offsets": offc, "stack": stack_class, "geom": robots::GEOMETRY_CLASSES[k % robots::GEOMETRY_CLASSES.len()],
-            "sign5": p.sign_corrections[4], "limited": limits.is_some(), "sentinel": sentinel, "scale": scale, "layers": format!("{:?}", robot.layers), "params": robots::params_json(&p), "truth": au6(&q)});
+            "sign5": p.sign_corrections[4], "limited": limits.is_some(), "sentinel": sentinel, "via_frame": via_frame, "scale": scale, "layers": format!("{:?}", robot.layers), "params": robots::params_json(&p), "truth": au6(&q)});
         let mut ev = base;
         match ans {
             None => { ev["outcome"] = json!("panic"); ev["answers"] = json!([]); }
